@@ -26,6 +26,7 @@ type PoolCase struct {
 	Policy     string `json:"policy,omitempty"` // first | last | random
 	PSeed      uint64 `json:"pseed,omitempty"`
 	SleepUs    int    `json:"sleep_us,omitempty"`
+	IdleMs     int    `json:"idle_ms,omitempty"`    // after every round the pool is left idle this long; nothing may run meanwhile
 	LateTasks  int    `json:"late_tasks,omitempty"` // gated: tasks submitted by a second goroutine while the waiter is already inside Wait (its own tasks still parked); they are released first
 	DwellMs    int    `json:"dwell_ms,omitempty"` // gated: wait this long at the first two quiescent points with a blocked submitter
 	Lean       bool   `json:"lean,omitempty"` // tasks only do plain (non-atomic) writes; no harness synchronisation
@@ -325,6 +326,14 @@ func runPoolCase(cs *PoolCase) *PoolObs {
 			}
 			o.TasksRun += int(cnt)
 		}
+		if cs.IdleMs > 0 {
+			time.Sleep(time.Duration(cs.IdleMs) * time.Millisecond)
+			for id := 0; id < n; id++ {
+				if cnt := atomic.LoadInt32(&counts[id]); cnt != 1 {
+					o.NotOnce = append(o.NotOnce, fmt.Sprintf("round %d task %d had been executed %d times after the pool sat idle for %d ms", round, id, cnt, cs.IdleMs))
+				}
+			}
+		}
 	}
 	o.HighWater = int(hw.Load())
 	o.Snapshots = st.Snapshots
@@ -536,6 +545,29 @@ func runC08(c *Cfg) {
 		cases = append(cases, &BatchCase{Family: "sequential-order", N: n, C: 0, Budget: 2, Items: it, Shape: "results", Build: "builder", ExecStyle: "any", Gated: true, Policy: "first"})
 		cases = append(cases, &BatchCase{Family: "sequential-order", N: n, C: 0, Budget: 1, Items: it, Shape: "ints", Build: "compose", ExecStyle: "result", SleepUs: 5})
 	}
+	// the same node object run before with fewer items than workers: the limit must still be fully usable afterwards
+	for _, cc := range []int{2, 3, 5, 8} {
+		for _, pn := range []int{1, cc - 1} {
+			n := 2*cc + 1
+			it := make([]ItemScript, n)
+			for j := range it {
+				it[j].K = 1
+			}
+			cases = append(cases, &BatchCase{Family: "limit-after-earlier-run", N: n, C: cc, Budget: 1, Items: it, Shape: "results", Build: "builder", ExecStyle: "result", Gated: true, Policy: "random", PSeed: uint64(cc*10 + pn),
+				Prelude: &Prelude{N: pn, Items: make([]ItemScript, pn)}})
+		}
+	}
+	// retries with a (short) wait: a waiting item still occupies its slot — never more than c in flight
+	for _, cc := range []int{1, 2, 3, 4} {
+		n := cc + 2
+		it := make([]ItemScript, n)
+		for j := range it {
+			it[j].K = 1
+		}
+		it[0].K = 2
+		cases = append(cases, &BatchCase{Family: "limit-with-retry-wait", N: n, C: cc, Budget: 2, Items: it, Shape: "results", Build: "builder", ExecStyle: "any", Gated: true, Policy: "holdfail", WaitMs: 1, DwellMs: 4})
+		cases = append(cases, &BatchCase{Family: "limit-with-retry-wait", N: n, C: cc, Budget: 3, Items: it, Shape: "results", Build: "options", ExecStyle: "result", SleepUs: 300, WaitMs: 1})
+	}
 	// dwell cases: the controller waits 150 ms at saturated quiescent points, so behaviour triggered by time
 	// (e.g. a submit that gives up blocking after a grace period) gets its chance to exceed the limit
 	for _, cc := range []int{1, 2, 3} {
@@ -615,6 +647,10 @@ func runC12(c *Cfg) {
 				}
 			}
 		}
+	}
+	// idle periods between rounds (time-triggered behaviour such as idle timers gets its chance)
+	for _, w := range []int{1, 2, 3, 6} {
+		pcs = append(pcs, &PoolCase{Family: "idle-between-rounds", Workers: w, Tasks: w + 1, Submitters: 1, Rounds: 2, Gated: true, Policy: "first", IdleMs: 650})
 	}
 	// a second goroutine submits while the first is inside Wait; its tasks complete first (out-of-order completion)
 	for w := 2; w <= 8; w++ {
